@@ -423,8 +423,9 @@ open MG.Eng MG.ND MG.C13 MG.C04R
 theorem outCore_keeps {β} (π : Tens → β) (h1 : ∀ x : Tens, π { x with base := none } = π x)
     (h2 : ∀ x : Tens, π { x with grad := none, viewGrad := none } = π x)
     (h3 : ∀ (x : Tens) (f : Nat), π { x with ops := f :: x.ops } = π x)
-    (h : Heap) (kind : Kind) (users vars : List Nat) (out : Arr) (t : Nat) (ht : t ≠ h.next + 1) :
-    π ((outCore h kind users vars out).1.t t) = π (h.t t) := by
+    (h : Heap) (kind : Kind) (users vars : List Nat) (out : Arr) (t : Nat) (ht : t ≠ h.next + 1)
+    (wm : Option (Shape × List Bool) := none) :
+    π ((outCore h kind users vars out wm).1.t t) = π (h.t t) := by
   let step1 : Heap → Nat → Heap := fun h v =>
     let tv := h.t v
     let h := if tv.base.isSome ∧ tv.creator.isNone then h.modT v ({ · with base := none }) else h
@@ -445,7 +446,7 @@ theorem outCore_keeps {β} (π : Tens → β) (h1 : ∀ x : Tens, π { x with ba
   let h2' := users.foldl step1 h
   have N2 : h2'.next = h.next := next_foldl users step1 n1 h
   let f := h2'.next
-  let h3' := (h2'.fresh.1).setOp f { kind := kind, vars := vars, whereMask := none }
+  let h3' := (h2'.fresh.1).setOp f { kind := kind, vars := vars, whereMask := wm }
   let step2 : Heap → Nat → Heap := fun h v => h.modT v fun t => { t with ops := f :: t.ops }
   have f2 : ∀ (xs : List Nat) (hh : Heap) (x : Nat), π ((xs.foldl step2 hh).t x) = π (hh.t x) := by
     intro xs
@@ -461,7 +462,7 @@ theorem outCore_keeps {β} (π : Tens → β) (h1 : ∀ x : Tens, π { x with ba
     rw [next_foldl vars step2 (fun _ _ => rfl) h3']
     show h2'.next + 1 = _
     rw [N2]
-  have e : outCore h kind users vars out =
+  have e : outCore h kind users vars out wm =
       ((h4.fresh.1).setT h4.next { data := out, const := !(vars.any fun v => !(h2'.t v).const), creator := some f }, h4.next) := rfl
   rw [e]
   have hne : t ≠ h4.next := by rw [N4]; exact ht
@@ -472,9 +473,10 @@ theorem outCore_keeps {β} (π : Tens → β) (h1 : ∀ x : Tens, π { x with ba
   show π (h2'.t t) = _
   exact f1 users h t
 
-theorem outCore_const (h : Heap) (kind : Kind) (users vars : List Nat) (out : Arr) :
-    ((outCore h kind users vars out).1.t (h.next + 1)).const = !(vars.any fun v => !(h.t v).const) ∧
-    ((outCore h kind users vars out).1.t (h.next + 1)).vchildren = [] := by
+theorem outCore_const (h : Heap) (kind : Kind) (users vars : List Nat) (out : Arr)
+    (wm : Option (Shape × List Bool) := none) :
+    ((outCore h kind users vars out wm).1.t (h.next + 1)).const = !(vars.any fun v => !(h.t v).const) ∧
+    ((outCore h kind users vars out wm).1.t (h.next + 1)).vchildren = [] := by
   let step1 : Heap → Nat → Heap := fun h v =>
     let tv := h.t v
     let h := if tv.base.isSome ∧ tv.creator.isNone then h.modT v ({ · with base := none }) else h
@@ -496,14 +498,14 @@ theorem outCore_const (h : Heap) (kind : Kind) (users vars : List Nat) (out : Ar
   let h2' := users.foldl step1 h
   have N2 : h2'.next = h.next := next_foldl users step1 n1 h
   let f := h2'.next
-  let h3' := (h2'.fresh.1).setOp f { kind := kind, vars := vars, whereMask := none }
+  let h3' := (h2'.fresh.1).setOp f { kind := kind, vars := vars, whereMask := wm }
   let step2 : Heap → Nat → Heap := fun h v => h.modT v fun t => { t with ops := f :: t.ops }
   let h4 := vars.foldl step2 h3'
   have N4 : h4.next = h.next + 1 := by
     rw [next_foldl vars step2 (fun _ _ => rfl) h3']
     show h2'.next + 1 = _
     rw [N2]
-  have e : outCore h kind users vars out =
+  have e : outCore h kind users vars out wm =
       ((h4.fresh.1).setT h4.next { data := out, const := !(vars.any fun v => !(h2'.t v).const), creator := some f }, h4.next) := rfl
   rw [e]
   simp only [← N4, t_setT_self]
@@ -519,8 +521,9 @@ end MG.C04V
 namespace MG.C04V
 open MG.Eng MG.ND MG.C13 MG.C04R
 
-theorem outCore_next (h : Heap) (kind : Kind) (users vars : List Nat) (out : Arr) :
-    (outCore h kind users vars out).1.next = h.next + 2 ∧ (outCore h kind users vars out).1.ro = h.ro := by
+theorem outCore_next (h : Heap) (kind : Kind) (users vars : List Nat) (out : Arr)
+    (wm : Option (Shape × List Bool) := none) :
+    (outCore h kind users vars out wm).1.next = h.next + 2 ∧ (outCore h kind users vars out wm).1.ro = h.ro := by
   let step1 : Heap → Nat → Heap := fun h v =>
     let tv := h.t v
     let h := if tv.base.isSome ∧ tv.creator.isNone then h.modT v ({ · with base := none }) else h
@@ -534,7 +537,7 @@ theorem outCore_next (h : Heap) (kind : Kind) (users vars : List Nat) (out : Arr
     | cons c cs ih => intro hh; simp only [List.foldl_cons]; rw [(ih _).1, (ih _).2]; exact n1 hh c
   let h2' := users.foldl step1 h
   let f := h2'.next
-  let h3' := (h2'.fresh.1).setOp f { kind := kind, vars := vars, whereMask := none }
+  let h3' := (h2'.fresh.1).setOp f { kind := kind, vars := vars, whereMask := wm }
   let step2 : Heap → Nat → Heap := fun h v => h.modT v fun t => { t with ops := f :: t.ops }
   have f2 : ∀ (xs : List Nat) (hh : Heap), (xs.foldl step2 hh).next = hh.next ∧ (xs.foldl step2 hh).ro = hh.ro := by
     intro xs
@@ -542,7 +545,7 @@ theorem outCore_next (h : Heap) (kind : Kind) (users vars : List Nat) (out : Arr
     | nil => intro hh; exact ⟨rfl, rfl⟩
     | cons c cs ih => intro hh; simp only [List.foldl_cons]; rw [(ih _).1, (ih _).2]; exact ⟨rfl, rfl⟩
   let h4 := vars.foldl step2 h3'
-  have e : outCore h kind users vars out =
+  have e : outCore h kind users vars out wm =
       ((h4.fresh.1).setT h4.next { data := out, const := !(vars.any fun v => !(h2'.t v).const), creator := some f }, h4.next) := rfl
   rw [e]
   refine ⟨?_, ?_⟩
@@ -571,12 +574,13 @@ theorem Same4.rfl' (a : Tens) : Same4 a a := ⟨rfl, rfl, rfl, rfl⟩
 theorem Same4.trans {a b c : Tens} (h1 : Same4 a b) (h2 : Same4 b c) : Same4 a c :=
   ⟨h1.data.trans h2.data, h1.const.trans h2.const, h1.creator.trans h2.creator, h1.vchildren.trans h2.vchildren⟩
 
-theorem outCore_same4 (h : Heap) (kind : Kind) (users vars : List Nat) (out : Arr) (t : Nat) (ht : t ≠ h.next + 1) :
-    Same4 ((outCore h kind users vars out).1.t t) (h.t t) :=
-  ⟨outCore_keeps Tens.data (fun _ => rfl) (fun _ => rfl) (fun _ _ => rfl) h kind users vars out t ht,
-   outCore_keeps Tens.const (fun _ => rfl) (fun _ => rfl) (fun _ _ => rfl) h kind users vars out t ht,
-   outCore_keeps Tens.creator (fun _ => rfl) (fun _ => rfl) (fun _ _ => rfl) h kind users vars out t ht,
-   outCore_keeps Tens.vchildren (fun _ => rfl) (fun _ => rfl) (fun _ _ => rfl) h kind users vars out t ht⟩
+theorem outCore_same4 (h : Heap) (kind : Kind) (users vars : List Nat) (out : Arr) (t : Nat) (ht : t ≠ h.next + 1)
+    (wm : Option (Shape × List Bool) := none) :
+    Same4 ((outCore h kind users vars out wm).1.t t) (h.t t) :=
+  ⟨outCore_keeps Tens.data (fun _ => rfl) (fun _ => rfl) (fun _ _ => rfl) h kind users vars out t ht wm,
+   outCore_keeps Tens.const (fun _ => rfl) (fun _ => rfl) (fun _ _ => rfl) h kind users vars out t ht wm,
+   outCore_keeps Tens.creator (fun _ => rfl) (fun _ => rfl) (fun _ _ => rfl) h kind users vars out t ht wm,
+   outCore_keeps Tens.vchildren (fun _ => rfl) (fun _ => rfl) (fun _ _ => rfl) h kind users vars out t ht wm⟩
 
 theorem stage8_spec (D : Heap) (b v pb pv : Nat) (kind : Kind) (inputs : List Operand) (vals : List Int)
     (vf : ViewFn) (dv : Desc) (hbl : b < D.next) (hpbl : pb < D.next) :
